@@ -176,7 +176,7 @@ def run(args):
                                  real_components=['outrank.core_ranking.compute_coverage / compute_cardinalities / compute_value_counts + GLOBAL_* storages, outrank.core_utils.summarize_rare_counts (real, forked process per history)'],
                                  stub_components=[], rep=rep, pool=pool, finish=False)
     if not stop:
-        pipe_common.run_check('C13', args, PIPE_PROFILE, RULE, pipe_signature, pipe_nontrivial, rep=rep, pool=pool, finish=False, budget=total * 0.5)
+        pipe_common.run_check('C13', args, PIPE_PROFILE, RULE, pipe_signature, pipe_nontrivial, rep=rep, pool=pool, finish=False, budget=total * 0.5, crash_mode=True)
     code = rep.finish()
     pool.close()
     return code
